@@ -226,6 +226,8 @@ inline int mini_run(
                 if (sscanf(line, "R %ld %d %llx %llx %d", &idx, &st, &h, &sg, &nt) == 5) {
                     finished = idx;
                     ++runs;
+                    if (getenv("YS_ELINES"))
+                        printf("E %ld %016llx\n", idx, h);
                     if (nt)
                         sigs.insert(sg);
                 }
